@@ -1054,6 +1054,161 @@ func raceQ5(t *testing.T) (res raceResult) {
 	return
 }
 
+// G1: a completion lands while another Acquire is between the strategy's grant and the limiter's own in-flight count.  Both must be
+// counted: afterwards gauge = strategy busy = listeners outstanding.
+type parkStrategy struct {
+	core.Strategy
+	mu     sync.Mutex
+	park   bool
+	parked chan chan struct{}
+}
+
+func (p *parkStrategy) TryAcquire(ctx context.Context) (core.StrategyToken, bool) {
+	tok, ok := p.Strategy.TryAcquire(ctx)
+	p.mu.Lock()
+	pk := p.park && ok
+	p.mu.Unlock()
+	if pk {
+		c := make(chan struct{})
+		p.parked <- c
+		<-c
+	}
+	return tok, ok
+}
+
+func raceG1(t *testing.T) (res raceResult) {
+	res.Sig = "default:gauge-lost-update:completion-during-acquire"
+	// real time: OnSuccess / OnDropped give their unit back and then wait for the limiter's mutex (held by the parked Acquire)
+	for _, oc := range []int{0, 1, 2} {
+		inner := strategy.NewPreciseStrategy(5)
+		st := &parkStrategy{Strategy: inner, parked: make(chan chan struct{}, 1)}
+		l, err := limiter.NewDefaultLimiter(limit.NewFixedLimit("f", 5, nil), 1e9, 1e9, 0, 10, st, nil, core.EmptyMetricRegistryInstance)
+		if err != nil {
+			t.Fatal(err)
+		}
+		a, _ := l.Acquire(context.Background())
+		st.mu.Lock()
+		st.park = true
+		st.mu.Unlock()
+		done := make(chan core.Listener, 1)
+		go func() { b, _ := l.Acquire(context.Background()); done <- b }()
+		c := <-st.parked // B holds its strategy token, the limiter has not counted it yet
+		st.mu.Lock()
+		st.park = false
+		st.mu.Unlock()
+		adone := make(chan struct{})
+		go func() { // A completes meanwhile: its unit goes back at once
+			defer close(adone)
+			switch oc {
+			case 0:
+				a.OnSuccess()
+			case 1:
+				a.OnIgnore()
+			default:
+				a.OnDropped()
+			}
+		}()
+		time.Sleep(100 * time.Millisecond)
+		close(c)
+		b := <-done
+		<-adone
+		if g, busy := l.VerifInFlight(), inner.GetBusyCount(); (g != 1 || busy != 1) && !res.Failed {
+			res.Failed = true
+			res.Detail = fmt.Sprintf("completion outcome %d during another Acquire: one listener outstanding, in-flight gauge %d, strategy busy %d", oc, g, busy)
+		}
+		if b != nil {
+			b.OnIgnore()
+		}
+		if g := l.VerifInFlight(); g != 0 && !res.Failed {
+			res.Failed = true
+			res.Detail = fmt.Sprintf("completion outcome %d during another Acquire: everything completed, in-flight gauge %d", oc, g)
+		}
+	}
+	return
+}
+
+// L1 (real time): a reader holds the default limiter's lock for a moment (a monitoring call to EstimatedLimit() inside a slow limit
+// algorithm) exactly when a woken waiter - or the queue's hand-off on its behalf - asks the delegate again.  The attempt has to wait for the
+// lock, not give up: capacity is free, so the waiter is served.
+type parkEstLimit struct {
+	mu     sync.Mutex
+	park   bool
+	parked chan chan struct{}
+}
+
+func (l *parkEstLimit) EstimatedLimit() int {
+	l.mu.Lock()
+	p := l.park
+	l.park = false
+	l.mu.Unlock()
+	if p {
+		c := make(chan struct{})
+		l.parked <- c
+		<-c
+	}
+	return 1
+}
+func (l *parkEstLimit) NotifyOnChange(core.LimitChangeListener) {}
+func (l *parkEstLimit) OnSample(int64, int64, int, bool)        {}
+
+func raceL1(t *testing.T) (res raceResult) {
+	res.Sig = "default:refused-under-lock-contention:woken-waiter"
+	for kind := 0; kind < 3; kind++ {
+		pl := &parkEstLimit{parked: make(chan chan struct{}, 1)}
+		st := strategy.NewPreciseStrategy(1)
+		dl, err := limiter.NewDefaultLimiter(pl, 1e9, 1e9, 0, 10, st, nil, core.EmptyMetricRegistryInstance)
+		if err != nil {
+			t.Fatal(err)
+		}
+		var lim core.Limiter
+		switch kind {
+		case 0:
+			lim = limiter.NewBlockingLimiter(dl, 0, nil)
+		case 1:
+			lim = limiter.NewDeadlineLimiter(dl, time.Now().Add(time.Hour), nil)
+		default:
+			lim = limiter.NewQueueBlockingLimiterFromConfig(dl, limiter.QueueLimiterConfig{MaxBacklogSize: 3, MaxBacklogTimeout: time.Hour})
+		}
+		holder, ok := lim.Acquire(context.Background())
+		if !ok {
+			res.Failed, res.Detail = true, "setup: first acquisition refused"
+			return
+		}
+		ctx, cancel := context.WithCancel(context.Background())
+		type ans struct {
+			l  core.Listener
+			ok bool
+		}
+		done := make(chan ans, 1)
+		go func() { l, ok := lim.Acquire(ctx); done <- ans{l, ok} }()
+		time.Sleep(300 * time.Millisecond) // the waiter is asleep
+		pl.mu.Lock()
+		pl.park = true
+		pl.mu.Unlock()
+		go dl.EstimatedLimit()
+		c := <-pl.parked     // the reader is inside the limiter's read lock
+		go holder.OnIgnore() // release + wake-up (this completion takes no limiter lock)
+		time.Sleep(300 * time.Millisecond)
+		close(c) // the reader leaves
+		select {
+		case a := <-done:
+			if a.ok {
+				a.l.OnIgnore()
+			} else if !res.Failed {
+				res.Failed, res.Detail = true, fmt.Sprintf("%s: the woken waiter was refused", []string{"blocking", "deadline", "queue"}[kind])
+			}
+		case <-time.After(3 * time.Second):
+			if !res.Failed {
+				res.Failed = true
+				res.Detail = fmt.Sprintf("%s limiter: a token was released while a reader held the default limiter's lock for 300 ms; 3 s after the reader left the waiter is still blocked with %d/1 tokens held", []string{"blocking", "deadline", "queue"}[kind], st.GetBusyCount())
+			}
+			cancel()
+		}
+		cancel()
+	}
+	return
+}
+
 func runRaces(t *testing.T, rep *Report, races ...func(*testing.T) raceResult) {
 	keep := func(sig string) bool {
 		if len(raceOnly) == 0 {
@@ -1096,7 +1251,7 @@ func runRaces(t *testing.T, rep *Report, races ...func(*testing.T) raceResult) {
 func TestC10Races(t *testing.T) {
 	rep := NewReport("C10races")
 	defer rep.Write(t)
-	runRaces(t, rep, raceF8, raceF8deadline, raceF8poll, raceB2, raceF9a, raceF9b, raceF9c, raceQ2, raceP1, raceQ4, raceB3)
+	runRaces(t, rep, raceF8, raceF8deadline, raceF8poll, raceB2, raceF9a, raceF9b, raceF9c, raceQ2, raceP1, raceQ4, raceB3, raceL1)
 }
 func TestC12Races(t *testing.T) {
 	rep := NewReport("C12races")
@@ -1146,8 +1301,8 @@ func TestC02Races(t *testing.T) {
 	rep := NewReport("C02races")
 	defer rep.Write(t)
 	// conservation must survive the race windows (the lost wake-ups themselves belong to C10)
-	raceOnly = []string{"queue:token-leak", "queue:backlog-not-exact", "blocking:token-leak"}
-	runRaces(t, rep, raceF9c, raceF9b, raceB1, raceF11)
+	raceOnly = []string{"queue:token-leak", "queue:backlog-not-exact", "blocking:token-leak", "default:gauge-lost-update"}
+	runRaces(t, rep, raceF9c, raceF9b, raceB1, raceF11, raceG1)
 }
 
 func TestC05Races(t *testing.T) {
